@@ -256,6 +256,8 @@ def opMove (o : Opts) (r : Root) (op : Op) : Outcome Root :=
         | .panic => .panic
         | .err e => .err e
         | .ok val =>
+          -- `get("")` is the container's own `self` node: a copy of it is moved, never the node itself
+          let val := if key = [] then (deepCopy o.esc val).1 else val
           match conRemove o con key with
           | .ok con' => .ok (con', val)
           | .err e => .err e
